@@ -1248,7 +1248,7 @@ type c08Run struct {
 // framework) does not list them, a case that falls under one AND on which the real code agrees
 // with the Impl model is reported as a note instead of a Spec violation; once listed it is an
 // ordinary KNOWN-FINDING.  Any disagreement with the model is still raised.
-var c08_proposed = map[string]bool{"C08-surplus-arguments-dropped": true}
+var c08_proposed = map[string]bool{"C08-surplus-arguments-dropped": true, "C08-slice-element-write-lost": true}
 
 var c08_listedCache map[string]bool
 
@@ -1308,11 +1308,23 @@ func (r *c08Run) flush() {
 		}
 		impl, specGo, guards := f[0], f[1], f[3]
 		agree := impl == c.gout
-		if !agree {
+		isHist := strings.HasPrefix(c.op, "hist")
+		if !agree && isHist {
+			r.e.R.Mismatch(c08_short(c.key, 3000), c08_short(c.gout, 1500), c08_short(impl, 1500), "real "+c.op+" vs C08 heap model: "+c08_histDiff(c.key, c.gout, impl))
+		} else if !agree {
 			r.e.R.Mismatch(c.key, c08_short(c.gout, 400), c08_short(impl, 400), "real "+c.op+" vs C08 model")
 		}
 		cls := c.gout
-		if strings.HasPrefix(cls, "(ok") {
+		if isHist {
+			cls = "every step accepted"
+			if strings.Contains(c.gout, "(panic ") {
+				cls = "a step panicked"
+			} else if strings.Contains(c.gout, "(error ") {
+				cls = "a step rejected"
+			} else if strings.HasPrefix(c.gout, "(res script-") {
+				cls = "script failed"
+			}
+		} else if strings.HasPrefix(cls, "(ok") {
 			cls = "ok"
 			if strings.Contains(c.gout, " panic)") {
 				cls = "ok-then-panic"
@@ -1344,8 +1356,16 @@ func (r *c08Run) flush() {
 					r.proposedSeen = map[string]string{}
 				}
 				if _, ok := r.proposedSeen[finding]; !ok {
-					r.proposedSeen[finding] = c.key + " → " + c08_short(c.gout, 200)
+					r.proposedSeen[finding] = c08_short(c.key, 900) + " → " + c08_short(c.gout, 300)
 				}
+				continue
+			}
+			if isHist {
+				idx := ""
+				if len(f) >= 5 {
+					idx = f[4]
+				}
+				r.e.R.Spec(c08_short(c.key, 3000), c08_histDetail(c.key, c.gout, idx), finding)
 				continue
 			}
 			r.e.R.Spec(c.key, "the real result violates the Spec: "+c08_short(c.gout, 300), finding)
@@ -2121,6 +2141,7 @@ func (r *c08Run) directed() {
 		{{1, c08_mk("bool"), reflect.ValueOf(true)}}})
 	r.reuseWriteCase("eval", []int64{1, 2, 3})
 	r.reuseWriteCase("evalcode", []int64{1, 2, 3})
+	r.histDirected()
 }
 
 func c08_runC08(e *Env) {
@@ -2129,7 +2150,11 @@ func c08_runC08(e *Env) {
 		"(+ script call), Proxy method call with 2-5 parameters (every argument position: nil followed by other arguments, too few, " +
 		"surplus; the method records and returns every parameter), one VirtualMachine used for 2-4 runs with globals supplied again " +
 		"under the same or other names (risor.Eval+WithVM, vm.RunCodeOnVM with options, one compiled code + risor.EvalCode; each run " +
-		"reads the globals; for *struct globals also: the proxy wraps the pointer supplied last, a field write lands in it). Types are built with reflect (PointerTo/SliceOf/ArrayOf/MapOf/StructOf) to depth <= 3 over scalars, " +
+		"reads the globals; for *struct globals also: the proxy wraps the pointer supplied last, a field write lands in it), HISTORIES over one Go object graph " +
+		"(2-5 objects with scalar, *struct, struct-by-value, []*struct, map[string]*struct, []struct fields; 1-3 global names, usually several for one object): " +
+		"3-24 steps of script reads / scalar writes / pointer stores / fresh-struct stores through paths of 1-6 steps interleaved with Go-side scalar stores, " +
+		"re-pointed pointers (65% at a pointer the script has walked through before), fresh objects, replaced slices / maps / struct values; after every mutation " +
+		"the place is read again through every name of the object; the whole Go heap is compared after every step; executed through kept proxies (hist-api) and as one script (hist-script; non-trivial: Go replaced a pointer / slice / map). Types are built with reflect (PointerTo/SliceOf/ArrayOf/MapOf/StructOf) to depth <= 3 over scalars, " +
 		"time.Time, interface{}, chan and 15 declared types; values are zero/nil/extremes/random; script objects for the " +
 		"script-to-Go direction are natural (what From produced), numeric boundary values, nil, mismatched kinds, wrong-length " +
 		"lists, foreign proxies. Non-trivial: type depth >= 1 or a boundary value; distinct by the canonical text of the case."
@@ -2142,6 +2167,23 @@ func c08_runC08(e *Env) {
 		n = 600000
 	}
 	g := r.g
+	nh := 2500
+	if !e.Quick {
+		nh = 40000
+	}
+	hg := &c08Run{e: e, g: &c08_gen{r: e.Rng.Fork()}}
+	for i := 0; i < nh; i++ {
+		hg.histCase()
+	}
+	hg.flush()
+	for id, c := range hg.proposedSeen {
+		if r.proposedSeen == nil {
+			r.proposedSeen = map[string]string{}
+		}
+		if _, ok := r.proposedSeen[id]; !ok {
+			r.proposedSeen[id] = c
+		}
+	}
 	for i := 0; i < n; i++ {
 		g.boundary = false
 		op := g.r.Intn(100)
